@@ -293,6 +293,23 @@ Theorem codec_consts_match :
 Proof. repeat split; vm_compute; reflexivity. Qed.
 Print Assumptions codec_consts_match.
 
+(* HttpLineModel follows the parser text in which the two HTTP defects recorded
+   above are present; when the source is repaired these flags flip, this
+   theorem stops checking, and the model (and the two _refuted theorems) have
+   to follow.  The WebSocket dialer defect is a parameter of the model
+   (eff_recvmax / eff_fragsize) set from C16_DIALER_COPIES_*. *)
+Theorem codec_fix_flags : (C16_REQ_PARSE_KEEPS_ERR, C16_STATUS_STRICT) = (false, false).
+Proof. reflexivity. Qed.
+Print Assumptions codec_fix_flags.
+
+(* a client built from the current dialer code has no message limit and the ws_init fragment size *)
+Theorem ws_dialer_limits_as_coded : forall recvmax fragsize,
+  eff_recvmax C16_DIALER_COPIES_RECVMAX false recvmax = (if C16_DIALER_COPIES_RECVMAX then recvmax else 0) /\
+  eff_fragsize C16_DIALER_COPIES_FRAGSIZE false fragsize = (if C16_DIALER_COPIES_FRAGSIZE then fragsize else WS_INIT_FRAGSIZE) /\
+  eff_recvmax C16_DIALER_COPIES_RECVMAX true recvmax = recvmax /\ eff_fragsize C16_DIALER_COPIES_FRAGSIZE true fragsize = fragsize.
+Proof. intros. unfold eff_recvmax, eff_fragsize. repeat split; destruct C16_DIALER_COPIES_RECVMAX, C16_DIALER_COPIES_FRAGSIZE; reflexivity. Qed.
+Print Assumptions ws_dialer_limits_as_coded.
+
 (* ------------------------------------------------------- non-vacuity *)
 (* the hypotheses of ws_frame_roundtrip are satisfiable with the default
    configuration, and the decoder then delivers the payload *)
